@@ -22,6 +22,18 @@ def nearAll (eps : Rat) : List Rat → List Rat → Bool
 /-- inverse relation: mapping the implementation's outputs back returns the inputs -/
 def inverseOK (eps : Rat) (inputs roundtrip : List Rat) : Bool := nearAll eps roundtrip inputs
 
+/-- `|a - b| ≤ eps |b|` (purely relative: for rates deep in a tail, where an absolute tolerance sees nothing) -/
+def nearRel (eps a b : Rat) : Bool := decide (absQ (a - b) ≤ eps * absQ b)
+
+/-- same length and pointwise `nearRel` -/
+def nearRelAll (eps : Rat) : List Rat → List Rat → Bool
+  | [], [] => true
+  | a :: as, b :: bs => nearRel eps a b && nearRelAll eps as bs
+  | _, _ => false
+
+/-- inverse relation with a relative tolerance on the inputs (tail rates) -/
+def inverseRelOK (eps : Rat) (inputs roundtrip : List Rat) : Bool := nearRelAll eps roundtrip inputs
+
 /-- the rates of a ROC curve are the analytic FNR / FPR at its thresholds -/
 def rocOK (eps : Rat) (N : StdNormal) (d : NormalDataset) (R : ROC) : Bool :=
   nearAll eps R.fnr (R.thresholds.map (d.fnr N)) && nearAll eps R.fpr (R.thresholds.map (d.fpr N))
